@@ -102,6 +102,7 @@ let sfail = function FPanic k -> Printf.sprintf "panic %d" (inn k) | FUB s -> Pr
 let beh = script_beh
 
 let dropped = ref false
+let resets_base = ref 0
 let print_state () =
   let wd = !w in
   (* L: invocation log since the last op *)
@@ -111,8 +112,8 @@ let print_state () =
       let views = List.map (fun (code, items) ->
         let strs = List.sort compare (List.map sitem items) in
         Printf.sprintf "%d#%d{%s}" (inn code) (List.length items) (String.concat " " strs)) le.lg_views in
-      Printf.printf "L %s %s%d %d:%d id=%s tgt=%s recv=[%s] views=[%s]\n"
-        (skey le.lg_handler) (if le.lg_targeted then "t" else "g") (inn le.lg_tag)
+      Printf.printf "L %s rs=%d %s%d %d:%d id=%s tgt=%s recv=[%s] views=[%s]\n"
+        (skey le.lg_handler) (inn le.lg_resets - !resets_base) (if le.lg_targeted then "t" else "g") (inn le.lg_tag)
         (inn le.lg_ev.ev_ser) (inn le.lg_ev.ev_val) (skey le.lg_ev.ev_id) (skey le.lg_target)
         (String.concat " " (List.map sitem le.lg_recv_item)) (String.concat " " views)
     end) log;
@@ -167,6 +168,7 @@ let result_unit = function ROk (_, w') -> w := w'; print_string "R ok\n" | RFail
 let run_op (line : string) =
   toks := List.filter (fun s -> s <> "") (String.split_on_char ' ' line);
   let op = next () in
+  resets_base := inn (!w).w_resets;
   (match op with
    | "spawn" -> (match op_spawn beh !w with
                  | ROk (k, w') -> w := w'; Printf.printf "R id %s\n" (skey k)
